@@ -51,6 +51,9 @@ def cases(tier, seed):
             for nu in NUS:
                 for shape in ("1d", "2d"):
                     yield dict(kind="vector", frame=fr, mindist=md, nu=nu, shape=shape)
+    for md in MIND:
+        for nsq in (2, 3, 5):
+            yield dict(kind="square", mindist=md, n=nsq)
     for t in ([0.0, 0.0], [4.0, -8.0], [0.5, 1024.0], [-3.25, 2.0 ** 20]):
         for md in (0.0, 0.5):
             yield dict(kind="translate", shift=t, mindist=md)
@@ -221,6 +224,27 @@ def run(case, rec):
             got = np.concatenate([np.asarray(p[0]).ravel()[:nobs], np.asarray(p[1]).ravel()[:nobs]])
             rec.check(bool(np.all(np.abs(got - want) <= 16 * R.EPS * sc)), "predict != jacobian @ force (east rows/cols first) for force %s" % v.tolist())
         rec.cls("vector/mindist=%g/nu=%g" % (md, nu))
+        return
+    if kind == "square":
+        # as many forces as observation points, at DIFFERENT places: the matrix is square but not symmetric
+        # (added after seed C04-2: an upper-triangle-and-mirror shortcut for square Jacobians)
+        md, k = case["mindist"], case["n"]
+        oe = np.array([0.0, 1.0, 2.5, -1.0, 4.0][:k]); on = np.array([0.0, 2.0, 0.5, 3.0, -2.0][:k])
+        fe = np.array([0.5, 3.0, -2.0, 1.5, 0.25][:k]); fn = np.array([1.0, -1.0, 0.75, 4.0, 2.0][:k])
+        sp = vd.Spline(mindist=md if md else None)
+        for (ae, an, be, bn, what) in ((oe, on, fe, fn, "obs x forces"), (fe, fn, oe, on, "forces x obs"), (oe, on, oe[::-1].copy(), on[::-1].copy(), "same points, reversed order")):
+            J = call(rec, sp.jacobian, (ae, an), (be, bn))
+            if raised(J):
+                return rec.check(False, "Spline.jacobian raised %r" % (J,))
+            want = R.spline_design(ae, an, be, bn, md)
+            rec.check(np.asarray(J).shape == want.shape and bool(np.all(np.abs(np.asarray(J) - want) <= 64 * R.EPS * (1 + np.abs(want)))),
+                      "square Jacobian (%s) differs from g(|x_i - f_j|): %s vs %s" % (what, np.asarray(J).tolist(), want.tolist()))
+        if md > 0:
+            vs = vd.VectorSpline2D(mindist=md, poisson=0.5)
+            J = call(rec, vs.jacobian, (oe, on), (fe, fn))
+            want = R.elastic_design(oe, on, fe, fn, md, 0.5)
+            rec.check(not raised(J) and bool(np.all(np.abs(np.asarray(J) - want) <= 64 * R.EPS * (1 + np.abs(want)))), "square elastic Jacobian differs from the formula")
+        rec.cls("square")
         return
     if kind == "translate":
         t = case["shift"]
